@@ -20,7 +20,7 @@ func init() {
 		Rule:        "seeded histories in which transactions of all four levels end by Commit (successful or failing with ErrTxSerialization) or Rollback and are then used again (Get, GetReader, GetKeys, Set, SetReader, Create, Delete, Commit, Rollback), plus handles naming never-begun transaction ids; inline and gRPC clients; after every step the autocommit caller, every open transaction (RU/RC/RR/SER readers) and every ended handle probe all keys and GetKeys, and half of the histories reopen the database at the end and probe again; all compared with the reference model (late use fails with ErrTxNotFound, Rollback is a no-op, nothing changes); evaluations = late calls + probes; distinct_nontrivial = distinct (late operation, level, how the transaction ended, client, result class) tuples",
 		Assumptions: []string{"reference model refmodel"},
 		Roles: map[string]Role{
-			"main":       {N: func(t string) int { return tierN(t, 200, 3000) }, Case: c13Case},
+			"main":       {N: func(t string) int { return tierN(t, 200, 6000) }, Case: c13Case},
 			"concurrent": {N: func(t string) int { return tierN(t, 16, 160) }, Case: c13Concurrent},
 		},
 	})
